@@ -380,7 +380,7 @@ func main() {
 		}
 		return e
 	}
-	for i := 0; i < run.N(150, 5000); i++ {
+	for i := 0; i < run.N(150, 2000); i++ {
 		e := randEnv()
 		h := randHeight(e)
 		var txs []interfaces.Transaction
@@ -475,7 +475,7 @@ func main() {
 		}
 		return v
 	}
-	nCheck := run.N(900, 40000)
+	nCheck := run.N(900, 16000)
 	for i := 0; i < nCheck; i++ {
 		e := randEnv()
 		if rng.Chance(55) && e.Active == maxU32 {
@@ -590,7 +590,7 @@ func main() {
 	}
 
 	// ================================================================ AssignCoinbaseTxRewards
-	for i := 0; i < run.N(300, 10000); i++ {
+	for i := 0; i < run.N(300, 4000); i++ {
 		e := randEnv()
 		if rng.Chance(50) && e.Active == maxU32 {
 			e.Active = uint32(rng.Intn(2000000))
